@@ -9,6 +9,19 @@ Require Import Clarabel.Base.Ops Clarabel.Csc.Model.
 Definition Laws {T} (O : Ops T) : Prop :=
   RingLaws O /\ (forall a b : T, eqb O a b = true <-> a = b).
 
+(** Order laws needed by the norms (beyond the ring laws): [leb] is a total order, [ltb] its
+    strict part (so [omax] is the maximum), [abs] is non-negative and fixes zero.  Met by the
+    integers and the reals (Csc/LemmasOrd.v); not by binary64 with NaNs, which the norms'
+    correspondence never feeds. *)
+Definition OrdLaws {T} (O : Ops T) : Prop :=
+  (forall a : T, Ops.leb O a a = true) /\
+  (forall a b c : T, Ops.leb O a b = true -> Ops.leb O b c = true -> Ops.leb O a c = true) /\
+  (forall a b : T, Ops.leb O a b = true -> Ops.leb O b a = true -> a = b) /\
+  (forall a b : T, Ops.leb O a b = true \/ Ops.leb O b a = true) /\
+  (forall a b : T, Ops.ltb O a b = negb (Ops.leb O b a)) /\
+  (forall a : T, Ops.leb O (zero O) (abs O a) = true) /\
+  abs O (zero O) = zero O.
+
 Section Stmts.
 Context {T : Type} (O : Ops T).
 Notation csc := (@csc T).
@@ -174,6 +187,135 @@ Definition stmt_sums : Prop := Laws O ->
   forall A : csc, WellDim A -> RowsIn A ->
     (forall j, j < nc A -> nth j (col_sums O A) 0 = sum_upto (nr A) (fun i => get A i j)) /\
     (forall i, i < nr A -> nth i (row_sums O A) 0 = sum_upto (nc A) (fun j => get A i j)).
+
+(** ** Norms (ordered ring).  [is_maxabs_from m0 v n f]: [v] is the largest of
+    [m0, |f 0|, ..., |f (n-1)|]; [is_maxabs v n f]: the same with [m0 = 0]
+    (an upper bound that is attained); since [|.| >= 0] this is [max_k |f k|] whenever [n > 0],
+    and the value the code returns for an empty row/column ([0]) otherwise.  By
+    [stmt_maxabs_unique] the three conditions determine [v]. *)
+Definition is_maxabs_from (m0 v : T) (n : nat) (f : nat -> T) : Prop :=
+  Ops.leb O m0 v = true /\
+  (forall k, k < n -> Ops.leb O (abs O (f k)) v = true) /\
+  (v = m0 \/ exists k, k < n /\ v = abs O (f k)).
+Definition is_maxabs (v : T) (n : nat) (f : nat -> T) : Prop := is_maxabs_from 0 v n f.
+
+Definition stmt_maxabs_unique : Prop := OrdLaws O ->
+  forall (m0 v v' : T) (n : nat) (f : nat -> T),
+    is_maxabs_from m0 v n f -> is_maxabs_from m0 v' n f -> v = v'.
+
+Definition stmt_col_norms : Prop := Laws O -> OrdLaws O ->
+  forall A : csc, Canonical A ->
+    length (col_norms O A) = nc A /\
+    forall j, j < nc A -> is_maxabs (nth j (col_norms O A) 0) (nr A) (fun i => get A i j).
+
+Definition stmt_row_norms : Prop := Laws O -> OrdLaws O ->
+  forall A : csc, Canonical A ->
+    length (row_norms O A) = nr A /\
+    forall i, i < nr A -> is_maxabs (nth i (row_norms O A) 0) (nc A) (fun j => get A i j).
+
+(** column norms of the symmetric matrix represented by an upper-triangular [A] *)
+Definition stmt_col_norms_sym : Prop := Laws O -> OrdLaws O ->
+  forall A : csc, Canonical A -> nr A = nc A -> is_triu A = true ->
+    length (col_norms_sym O A) = nc A /\
+    forall j, j < nc A ->
+      is_maxabs (nth j (col_norms_sym O A) 0) (nc A) (fun i => symget A i j).
+
+(** the [*_no_reset] variants: started from a non-negative vector [s] (as the callers do: a
+    previous norm), entry [j] becomes the largest of [s_j] and the dense norm *)
+Definition stmt_norms_from : Prop := Laws O -> OrdLaws O ->
+  forall (A : csc) (s : list T), Canonical A ->
+    (forall k, Ops.leb O 0 (nth k s 0) = true) ->
+    (length s = nc A ->
+       length (col_norms_from O A s) = nc A /\
+       forall j, j < nc A ->
+         is_maxabs_from (nth j s 0) (nth j (col_norms_from O A s) 0) (nr A) (fun i => get A i j)) /\
+    (length s = nr A ->
+       length (row_norms_from O A s) = nr A /\
+       forall i, i < nr A ->
+         is_maxabs_from (nth i s 0) (nth i (row_norms_from O A s) 0) (nc A) (fun j => get A i j)) /\
+    (length s = nc A -> nr A = nc A -> is_triu A = true ->
+       length (col_norms_sym_from O A s) = nc A /\
+       forall j, j < nc A ->
+         is_maxabs_from (nth j s 0) (nth j (col_norms_sym_from O A s) 0) (nc A)
+                        (fun i => symget A i j)).
+
+(** ** zeros / identity *)
+Definition stmt_zeros : Prop := Laws O ->
+  forall m n : nat,
+    let Z : csc := zeros m n in
+    Canonical Z /\ nr Z = m /\ nc Z = n /\ forall i j, get Z i j = 0.
+
+Definition stmt_identity : Prop := Laws O ->
+  forall n : nat,
+    Canonical (identity O n) /\ nr (identity O n) = n /\ nc (identity O n) = n /\
+    forall i j, get (identity O n) i j = if (i =? j) && (j <? n) then one O else 0.
+
+(** ** General block-diagonal concatenation.  [bd_get] is the dense block-diagonal matrix of a
+    list of matrices; [stmt_blockdiag_blocks] restates it block by block (block [k] sits at
+    row offset [sum of the earlier nr] and column offset [sum of the earlier nc]). *)
+Fixpoint bd_get (ms : list csc) (i j : nat) : T :=
+  match ms with
+  | [] => 0
+  | B :: r => if j <? nc B then (if i <? nr B then get B i j else 0)
+              else (if i <? nr B then 0 else bd_get r (i - nr B) (j - nc B))
+  end.
+Definition empty_csc : csc := mkCsc 0 0 [].
+Definition bd_roff (ms : list csc) (k : nat) : nat := list_sum (map nr (firstn k ms)).
+Definition bd_coff (ms : list csc) (k : nat) : nat := list_sum (map nc (firstn k ms)).
+
+Definition stmt_blockdiag : Prop := Laws O ->
+  forall ms : list csc, Forall WellDim ms -> Forall RowsIn ms ->
+    (blockdiag ms = None <-> ms = []) /\
+    forall C, blockdiag ms = Some C ->
+      nr C = list_sum (map nr ms) /\ nc C = list_sum (map nc ms) /\
+      (forall i j, get C i j = bd_get ms i j) /\
+      (Forall Canonical ms -> Canonical C).
+
+Definition stmt_blockdiag_blocks : Prop :=
+  forall (ms : list csc) (k i j : nat), k < length ms ->
+      let B := nth k ms empty_csc in
+      (i < nr B -> j < nc B -> bd_get ms (bd_roff ms k + i) (bd_coff ms k + j) = get B i j) /\
+      (* off-diagonal blocks are zero *)
+      (forall k' j', k' < length ms -> k' <> k -> i < nr B -> j' < nc (nth k' ms empty_csc) ->
+         bd_get ms (bd_roff ms k + i) (bd_coff ms k' + j') = 0).
+
+(** ** General block concatenation (blocks given row-major).  [HvShapesOk] is the shape
+    consistency the dimension check tests: at least one block, every block row has as many
+    blocks as the first, blocks of one block row have equal row counts, blocks of one block
+    column have equal column counts. *)
+Definition blk (ms : list (list csc)) (p q : nat) : csc := nth q (nth p ms []) empty_csc.
+Definition HvShapesOk (ms : list (list csc)) : Prop :=
+  ms <> [] /\ hd [] ms <> [] /\
+  (forall p, p < length ms -> length (nth p ms []) = length (hd [] ms)) /\
+  (forall p q, p < length ms -> q < length (hd [] ms) -> nr (blk ms p q) = nr (blk ms p 0)) /\
+  (forall p q, p < length ms -> q < length (hd [] ms) -> nc (blk ms p q) = nc (blk ms 0 q)).
+Definition hv_roff (ms : list (list csc)) (p : nat) : nat :=
+  list_sum (map (fun r => nr (hd empty_csc r)) (firstn p ms)).
+Definition hv_coff (ms : list (list csc)) (q : nat) : nat :=
+  list_sum (map nc (firstn q (hd [] ms))).
+
+(** the dimension check: an error exactly when the block shapes are inconsistent *)
+Definition stmt_hvcat_dim_check : Prop :=
+  forall ms : list (list csc),
+    (hvcat_dim_ok ms = true <-> HvShapesOk ms) /\
+    (hvcat ms = None <-> ~ HvShapesOk ms).
+
+(** dense meaning by block: block [(p,q)] of the result is the input block *)
+Definition stmt_hvcat : Prop := Laws O ->
+  forall ms : list (list csc),
+    Forall (Forall WellDim) ms -> Forall (Forall RowsIn) ms ->
+    forall C, hvcat ms = Some C ->
+      nr C = hv_roff ms (length ms) /\ nc C = hv_coff ms (length (hd [] ms)) /\
+      (forall p q i j, p < length ms -> q < length (hd [] ms) ->
+         i < nr (blk ms p q) -> j < nc (blk ms p q) ->
+         get C (hv_roff ms p + i) (hv_coff ms q + j) = get (blk ms p q) i j) /\
+      (Forall (Forall Canonical) ms -> Canonical C).
+
+(** the blocks tile the result: every index below the total lies in exactly one block range
+    (so the block-wise equations above determine every entry) *)
+Definition stmt_offsets_cover : Prop :=
+  forall (l : list nat) (i : nat), i < list_sum l ->
+    exists p i', p < length l /\ i' < nth p l 0%nat /\ i = (list_sum (firstn p l) + i')%nat.
 
 (** check_format accepts exactly the encodings of canonical matrices *)
 Definition stmt_check_format_iff : Prop :=
